@@ -12,6 +12,7 @@ pub mod c07;
 pub mod c08;
 pub mod c09;
 pub mod c10;
+pub mod c14;
 
 pub struct PropInfo {
     pub run: fn(&Ctx, &mut Outcome),
@@ -64,12 +65,19 @@ const C03_ASSUMPTIONS: &[&str] = &[
     "only programs the reference model finishes within its step budget are compiled and run; bounded by rustc throughput (hundreds of programs in quick, tens of thousands in thorough)",
 ];
 
+const C14_ASSUMPTIONS: &[&str] = &[
+    "the closed-form function of each family program (copy / duplicate / cat) is right; it is cross-checked against the reference interpreter on every short input (a disagreement is reported as harness trouble, exit 2)",
+    "the family programs are compiled once per level at the start of the check with the installed rustc against the number-only build of the current tree",
+    "no claim for texts that were not generated (line lengths up to ~200 KB)",
+];
+
 pub fn info(id: &str) -> Option<PropInfo> {
     Some(match id {
         "C01" => PropInfo { run: c01::run, replay: c01::replay, gates: c01::gates, rule: c01::RULE, assumptions: EXEC_ASSUMPTIONS },
         "C02" => PropInfo { run: c02::run, replay: c02::replay, gates: c02::gates, rule: c02::RULE, assumptions: DIFF_ASSUMPTIONS },
         "C10" => PropInfo { run: c10::run, replay: c10::replay, gates: c10::gates, rule: c10::RULE, assumptions: C10_ASSUMPTIONS },
         "C03" => PropInfo { run: c03::run, replay: c03::replay, gates: c03::gates, rule: c03::RULE, assumptions: C03_ASSUMPTIONS },
+        "C14" => PropInfo { run: c14::run, replay: c14::replay, gates: c14::gates, rule: c14::RULE, assumptions: C14_ASSUMPTIONS },
         "C04" => PropInfo { run: c04::run, replay: c04::replay, gates: c04::gates, rule: c04::RULE, assumptions: PARSE_ASSUMPTIONS },
         "C08" => PropInfo { run: c08::run, replay: c08::replay, gates: c08::gates, rule: c08::RULE, assumptions: PARSE_ASSUMPTIONS },
         "C05" => PropInfo { run: c05::run, replay: c05::replay, gates: c05::gates, rule: c05::RULE, assumptions: NUM_ASSUMPTIONS },
@@ -86,8 +94,11 @@ pub fn replay(ctx: &Ctx, v: &Value) -> Result<CheckResult, String> {
 }
 
 /// per-property preparation (building helper artefacts); nothing for the number properties
-pub fn prepare(_ctx: &Ctx) -> Result<(), String> {
-    Ok(())
+pub fn prepare(ctx: &Ctx) -> Result<(), String> {
+    match ctx.id.as_str() {
+        "C14" => c14::prepare(ctx),
+        _ => Ok(()),
+    }
 }
 
 /// trusted-base self-tests; `full` adds the python cross-check
